@@ -6,3 +6,38 @@ CHECKS["C16"] = dict(
     note="Trusted: the scripted uploader stands in for backendpb (reads the batch only during Upload); one refresher at a time. Holds for the executions produced, not for all schedules.",
     ref="2/C16",
 )
+CHECKS["C02"] = dict(
+    level="exploration",
+    technique="runtime monitoring: real filterstorage.Default + hashprefix filters fed by a local HTTP fixture, verdicts and written messages (full dnssvc stack) compared with a precedence evaluator written from the statement; winner x loser matrix gated",
+    text="Seeded worlds of rule lists (grammar with known meaning), custom rules, blocked services, safe-search and hash-prefix lists are loaded into the real filter storage; for every configuration x probe the verdict at ForConfig(...).FilterRequest/FilterResponse and the message actually written behind the real middleware stack (per-profile blocking mode and TTL, upstream marker records) are compared with a ~60-line evaluator of the documented precedence. Holds for the configurations and probes generated (pairs of overlapping sources are counted and gated).",
+    note="Trusted: urlfilter's semantics inside the generated grammar; hash-prefix result caches are cleared per probe (their cross-requester leak is C12's subject). Exploration of a seeded sample, not all inputs.",
+    ref="2/C02",
+)
+CHECKS["C03"] = dict(
+    level="exploration",
+    technique="runtime monitoring: requests over the product transport x identifier channel x credentials x database state injected into the real dnssvc stack (MapDB and real profiledb), attribution observed at the terminal handler / billing / query log and judged by a decision table written from the statement; real DoH/DoT listeners confirm the RequestInfo the servers build",
+    text="About 40k cases (quick) over 16 servers, 20 devices, every identification channel and credential state; the security direction (attributed => entitled) is asserted on every case, the converse only where the statement fixes it. A subset goes through real HTTPS/TLS listeners.",
+    note="Trusted: the harness's decision table; devices without a password hash accept any password (recorded assumption). Finite product, seeded extras.",
+    ref="2/C03",
+)
+CHECKS["C11"] = dict(
+    level="exploration",
+    technique="runtime monitoring: real hashprefix Storage/Matcher/Filter and the preservice path of the full stack against an independent SHA-256/public-suffix model; value-based concurrent reset/lookup oracle",
+    text="Generated lists (comments, duplicates, CRLF, public-suffix and 4-label boundaries, 2-byte prefix collisions) across resets and refreshes; ~300k host probes and prefix queries per quick run are compared for soundness and completeness with a model written from the statement; TXT prefix queries are also driven through the real middleware stack.",
+    note="Trusted: x/net/publicsuffix data (cut-off logic re-implemented); hosts under non-ICANN suffixes follow the documented 'full private space' behaviour.",
+    ref="2/C11",
+)
+CHECKS["C15"] = dict(
+    level="exploration",
+    technique="runtime monitoring: per-request trace of query-log/billing side effects behind the real dnssvc stack (scripted filter verdicts, all attribution/drop classes, 32-goroutine phase under the race detector) + offline checker of the real querylog.FileSystem output (parse every line, multiset of ids, field model from doc/querylog.md)",
+    text="Every request's log entry and billing record must exist iff the statement allows it and must describe that request; the log file written by 32 concurrent writers must consist solely of complete single-line JSON objects, one per entry, with the documented fields.",
+    note="Trusted: doc/querylog.md as the field model; scripted filter storage instead of real lists (the real lists are C02's subject).",
+    ref="2/C15",
+)
+CHECKS["C17"] = dict(
+    level="fault_enumeration",
+    technique="runtime monitoring: seeded up/down/garbage/silent schedules of scripted stub upstreams against the real forward.Handler with explicit health-check rounds; reference fail-over state machine with interval arithmetic for the back-off; race detector on a concurrent query/refresh phase",
+    text="288 schedules x 14 steps (quick) over M in 1..3 mains and F in 0..2 fallbacks, 11 per-step stub behaviours, back-off in {0, 450ms, 750ms, 1h}; every query is matched against the set of legitimate (main, fallback, outcome) triples of the model using the stubs' own request logs and self-identifying answers.",
+    note="Trusted: the stubs' logs; back-off boundary cases are counted as ambiguous, never judged; a SERVFAIL reply from a main is relayed (statement), not failed over.",
+    ref="2/C17",
+)
